@@ -443,7 +443,11 @@ pub fn call(site: &Site, date: NaiveDate, p: &P) -> Out {
     let mut notes: Vec<Value> = Vec::new();
     if fresh {
         let (s2, p2) = (*site, p.clone());
-        let f = std::thread::spawn(move || raw_call(&s2, date, &p2)).join().unwrap_or_else(|_| Out { out: "panic", t: [-1; 7], x: [0; 7], msg: "thread".into() });
+        let (ftx, frx) = std::sync::mpsc::channel();
+        std::thread::spawn(move || {
+            let _ = ftx.send(direct_call(&s2, date, &p2));
+        });
+        let f = frx.recv_timeout(std::time::Duration::from_secs(CALL_TIMEOUT_S)).unwrap_or_else(|_| hang_out());
         if !same(&f, &out) {
             notes.push(json!({"ev": "impure", "kind": "history", "site": site_json(site), "date": date_json(date), "p": p.json(),
                 "in_sequence": {"out": out.out, "t": out.t, "x": out.x}, "fresh_thread": {"out": f.out, "t": f.t, "x": f.x},
@@ -489,8 +493,66 @@ pub fn call(site: &Site, date: NaiveDate, p: &P) -> Out {
     out
 }
 
-/// One guarded call of `prayer_times_dt`. A panic is data.
+// ------------------------------------------------------------------------------------------
+// Watchdog: every call runs on a persistent worker thread (so thread-local state of the library
+// persists from call to call, as in a real program); if a call does not return within CALL_TIMEOUT
+// the worker is abandoned (it keeps spinning until the process exits), the call is reported as
+// `hang`, and after the second hang the trace is closed early.
+
+pub const CALL_TIMEOUT_S: u64 = 20;
+pub static HANGS: std::sync::atomic::AtomicUsize = std::sync::atomic::AtomicUsize::new(0);
+
+struct Worker {
+    tx: std::sync::mpsc::Sender<(Site, NaiveDate, P)>,
+    rx: std::sync::mpsc::Receiver<Out>,
+}
+
+static WORKER: std::sync::Mutex<Option<Worker>> = std::sync::Mutex::new(None);
+
+fn spawn_worker() -> Worker {
+    let (tx, jobs) = std::sync::mpsc::channel::<(Site, NaiveDate, P)>();
+    let (res, rx) = std::sync::mpsc::channel::<Out>();
+    std::thread::Builder::new()
+        .stack_size(16 << 20)
+        .spawn(move || {
+            for (s, d, p) in jobs {
+                if res.send(direct_call(&s, d, &p)).is_err() {
+                    break;
+                }
+            }
+        })
+        .unwrap();
+    Worker { tx, rx }
+}
+
+fn hang_out() -> Out {
+    Out { out: "hang", t: [-1; 7], x: [0; 7], msg: format!("no result within {CALL_TIMEOUT_S} s") }
+}
+
+/// One guarded call of `prayer_times_dt` on the worker thread. A panic or a hang is data.
 pub fn raw_call(site: &Site, date: NaiveDate, p: &P) -> Out {
+    let mut g = WORKER.lock().unwrap();
+    let w = g.get_or_insert_with(spawn_worker);
+    if w.tx.send((*site, date, p.clone())).is_err() {
+        *g = None;
+        return direct_call(site, date, p);
+    }
+    match w.rx.recv_timeout(std::time::Duration::from_secs(CALL_TIMEOUT_S)) {
+        Ok(o) => o,
+        Err(_) => {
+            *g = None;
+            HANGS.fetch_add(1, std::sync::atomic::Ordering::SeqCst);
+            if let Some(s) = SESSION.lock().unwrap().as_mut() {
+                s.impure.push(json!({"ev": "hang", "site": site_json(site), "date": date_json(date), "p": p.json(),
+                    "timeout_s": CALL_TIMEOUT_S}));
+            }
+            hang_out()
+        }
+    }
+}
+
+/// The call itself, on the current thread. A panic is data.
+pub fn direct_call(site: &Site, date: NaiveDate, p: &P) -> Out {
     let params = p.params();
     let loc = site.location();
     let w = p.weather();
@@ -552,6 +614,18 @@ impl TraceWriter {
         serde_json::to_writer(&mut self.w, &v).unwrap();
         self.w.write_all(b"\n").unwrap();
         self.n += 1;
+        if HANGS.load(std::sync::atomic::Ordering::SeqCst) >= 2 {
+            // two calls never returned: stop generating (each leaves a spinning thread behind)
+            let notes: Vec<Value> = SESSION.lock().unwrap().as_mut().map(|s| s.impure.drain(..).collect()).unwrap_or_default();
+            for nv in notes {
+                serde_json::to_writer(&mut self.w, &nv).unwrap();
+                self.w.write_all(b"\n").unwrap();
+                self.n += 1;
+            }
+            self.w.flush().unwrap();
+            println!("{}", json!({"events": self.n, "aborted_after_hangs": 2}));
+            std::process::exit(0);
+        }
     }
     pub fn finish(mut self) -> usize {
         self.w.flush().unwrap();
